@@ -104,6 +104,12 @@ def cases(tier, seed):
                             "disk": disk, "extra": extra, "tr": None}
                     out.append({"tree": tree, "roots": roots, "args": args, "env": {"FCLONES_VERIF_DISK_KIND": disk},
                                 "meta": meta})
+                    if layout[0] in ("repeated_root", "overlapping_roots", "file_roots", "two_roots") and (idx // len(LAYOUTS)) % 2 == 0:
+                        # the same input paths on standard input (with and without --match-links / a transform)
+                        for more, tr in (([], None), (["-H"], None), (G.transform_args("keep", "pipe"), ["keep", "pipe"])):
+                            m2 = dict(meta, extra=extra + more[:1] + ["--stdin"], tr=tr)
+                            out.append({"tree": tree, "roots": roots, "args": args + more, "stdin_roots": True,
+                                        "env": {"FCLONES_VERIF_DISK_KIND": disk}, "meta": m2})
                     if not quick and idx % 5 == 0:
                         for more, rep in ((["--hash-fn", "blake3"], 1), (["--cache"], 2), (["-t", "1"], 1),
                                           (["--hash-fn", "sha512", "--cache"], 2)):
